@@ -77,9 +77,31 @@ func (e *Engine) execCall(fr *Frame, st *State, instr ssa.Instruction, call *ssa
 		}
 	}
 	if fv.K == KScalar {
+		if name := paramOfCallee(call.Value); name != "" && fr.contract != nil && fr.contract.Callbacks[name] == "pure" {
+			// a function-typed parameter declared "callback pure": no heap effect, arbitrary result
+			e.note("callback parameter " + name + " of " + shortName(fr.fn.String()) + " assumed to have no effect on the heap (callers inline the closure)")
+			return e.freshResult(st, "cb$"+name, resT)
+		}
 		e.oblige(st, "safety/nil", not(eq(fv.T, "0")), pos, "call of nil function value", nil)
 	}
 	return e.callUnknown(fr, st, "func value "+call.Value.Name(), args, resT, pos)
+}
+
+// paramOfCallee: the callee value is a load of the spilled parameter cell "name".
+func paramOfCallee(v ssa.Value) string {
+	if u, ok := v.(*ssa.UnOp); ok {
+		if a, ok := u.X.(*ssa.Alloc); ok {
+			for _, p := range a.Parent().Params {
+				if p.Name() == a.Comment {
+					return a.Comment
+				}
+			}
+		}
+	}
+	if p, ok := v.(*ssa.Parameter); ok {
+		return p.Name()
+	}
+	return ""
 }
 
 func (e *Engine) inStack(fr *Frame, fn *ssa.Function) bool {
@@ -141,6 +163,7 @@ func (e *Engine) callInline(fr *Frame, st *State, fn *ssa.Function, fc *FuncCont
 	}
 	nf := e.newFrame(fn, args, free, st, fr)
 	nf.contract = fc
+	nf.label = "inl:" + fn.Name() + "/"
 	rets := e.runBody(nf, st.clone())
 	if len(rets) == 0 {
 		// callee never returns normally
